@@ -1,18 +1,23 @@
 """C12 tables: the *statements* of the life-cycle methods of `Mesh` and of the `clear()` of every list, read from the
-current source with `ast` (no logic: `ast.unparse` of what is there; comments and docstrings drop out).
+current source with `ast` (no logic: `ast.unparse` of what is there).
 
-* `c12Methods`      method -> its top-level statements, each as (first line, remaining lines of the statement);
-* `c12ClearCalls`   for every statement `self.<attr>.clear()` of `Mesh.clear`, in order: (<attr>, statements of the
-                    `clear()` method of the class `Mesh.__init__` assigns to that attribute; `["<builtin>"]` when the attribute
-                    is a plain list / set / dict);
-* `c12ClearOther`   statements of `Mesh.clear` that are not of that form (none at present);
-* `c12WriteSections` the arguments of the `output.write(...)` calls of `Mesh.write`, in order;
-* `c12InitAttrs`    the attributes `Mesh.__init__` creates, with the source text of the right-hand side;
-* `c12Tol`          `constants.TOL` as a decimal string.
+Normalisation (so that only statement-level edits change a table): comments, docstrings, blank lines, type annotations and
+`print(...)` statements drop out; parameters (other than `self`) and locals are renamed `v0, v1, …` in order of first
+appearance; the arguments of a raised exception (its message) are dropped; literals are printed by `ast.unparse`.
 
-`Props/C12.lean` proves that the model's `clear`, `render`, `backport`, `write`, `delete`, `add` are what these statements
-mean under the reading given there (`T_C12_tie_*`); a statement added to, dropped from or reordered in one of the methods
-breaks the obligation.
+* `c12Tol`            `constants.TOL` as a decimal string (a plain value, emitted first);
+* `c12S_<Class>_<method>`  the top-level statements of one method, each as (first line, remaining lines), one table and one
+                      `emit.guard` group per method;
+* `c12ClearCalls`     for every statement `self.<attr>.clear()` of `Mesh.clear`, in order: (<attr>, statements of the
+                      `clear()` method of the class `Mesh.__init__` assigns to that attribute; `["<builtin>"]` when the attribute
+                      is a plain list / set / dict; `["<recreated>"]` for `self.<attr> = <Class>()`);
+* `c12ClearOther`     statements of `Mesh.clear` that are not of that form (none at present);
+* `c12WriteSections`  the arguments of the `output.write(...)` calls of `Mesh.write`, in order; `c12WritePre` the statements before;
+* `c12InitAttrs`      the attributes `Mesh.__init__` creates, with the source text of the right-hand side.
+
+No *model* module names one of these tables (`Model/C12.lean` uses the common hexahedron tables only), so the correspondence
+runs whatever the translator makes of the source; `Lemmas/C12Tie.lean` / `Props/C12.lean` prove that the model's `clear`,
+`render`, `backport`, `write` are what these statements mean under the reading given there (`T_C12_tie_*`).
 """
 
 from __future__ import annotations
@@ -23,11 +28,91 @@ import textwrap
 from typing import Any, List, Tuple
 
 
+def _normalise(fn: ast.FunctionDef) -> ast.FunctionDef:
+    """annotations, print statements and exception messages dropped; parameters and locals renamed v0, v1, …"""
+    names: List[str] = []
+
+    def add(n: str) -> None:
+        if n not in names and n not in ("self", "cls"):
+            names.append(n)
+
+    class Collect(ast.NodeVisitor):
+        def visit_arguments(self, a: ast.arguments) -> None:
+            for x in a.posonlyargs + a.args + ([a.vararg] if a.vararg else []) + a.kwonlyargs + ([a.kwarg] if a.kwarg else []):
+                add(x.arg)
+
+        def visit_Name(self, node):
+            if isinstance(node.ctx, ast.Store):
+                add(node.id)
+
+        def visit_ExceptHandler(self, node):
+            if node.name:
+                add(node.name)
+            self.generic_visit(node)
+
+        def visit_withitem(self, node):
+            self.generic_visit(node)
+
+    Collect().visit(fn)
+    new = {n: f"v{k}" for k, n in enumerate(names)}
+
+    def is_print(st: ast.stmt) -> bool:
+        return (
+            isinstance(st, ast.Expr)
+            and isinstance(st.value, ast.Call)
+            and isinstance(st.value.func, ast.Name)
+            and st.value.func.id == "print"
+        )
+
+    class Rename(ast.NodeTransformer):
+        def visit_Name(self, n):
+            n.id = new.get(n.id, n.id)
+            return n
+
+        def visit_arg(self, n):
+            n.arg = new.get(n.arg, n.arg)
+            n.annotation = None
+            return n
+
+        def visit_FunctionDef(self, n):
+            n.returns = None
+            self.generic_visit(n)
+            return n
+
+        def visit_AnnAssign(self, n):
+            self.generic_visit(n)
+            if n.value is None:
+                return None
+            return ast.copy_location(ast.Assign(targets=[n.target], value=n.value), n)
+
+        def visit_Expr(self, n):
+            if is_print(n):
+                return None
+            self.generic_visit(n)
+            return n
+
+        def visit_Raise(self, n):
+            self.generic_visit(n)
+            if isinstance(n.exc, ast.Call) and isinstance(n.exc.func, ast.Name):
+                n.exc = n.exc.func  # the message is not part of the outline
+            return n
+
+        def visit_ExceptHandler(self, n):
+            if n.name:
+                n.name = new.get(n.name, n.name)
+            self.generic_visit(n)
+            return n
+
+    fn = Rename().visit(fn)
+    ast.fix_missing_locations(fn)
+    return fn
+
+
 def _func(obj) -> ast.FunctionDef:
     src = textwrap.dedent(inspect.getsource(obj.fget if isinstance(obj, property) else obj))
     node = ast.parse(src).body[0]
     assert isinstance(node, (ast.FunctionDef,)), type(node)
-    return node
+    return _normalise(node)
 
 
 def _body(fn: ast.FunctionDef) -> List[ast.stmt]:
@@ -63,51 +148,31 @@ def _self_attr_call(node: ast.stmt, method: str):
     return None
 
 
-def emit_all(emit) -> None:
-    from classy_blocks.construct.flat.face import Face
-    from classy_blocks.lists.block_list import BlockList
-    from classy_blocks.lists.patch_list import PatchList
-    from classy_blocks.mesh import Mesh
-    from classy_blocks.util import constants
-
-    methods: List[Tuple[str, Any]] = [
-        ("Mesh.add", Mesh.add),
-        ("Mesh.delete", Mesh.delete),
-        ("Mesh.assemble", Mesh.assemble),
-        ("Mesh.grade", Mesh.grade),
-        ("Mesh.clear", Mesh.clear),
-        ("Mesh.backport", Mesh.backport),
-        ("Mesh.write", Mesh.write),
-        ("Mesh.is_assembled", Mesh.__dict__["is_assembled"]),
-        ("Mesh.add_geometry", Mesh.add_geometry),
-        ("Mesh.modify_patch", Mesh.modify_patch),
-        ("Mesh.set_default_patch", Mesh.set_default_patch),
-        ("Mesh.merge_patches", Mesh.merge_patches),
-        ("BlockList.grade_blocks", BlockList.grade_blocks),
-        ("PatchList.modify", PatchList.modify),
-        ("Face.update", Face.update),
-    ]
+def _emit_method(emit, name: str, obj) -> None:
     emit(
-        "c12Methods",
-        "List (String × List (String × List String))",
-        [(name, [(h, list(rest)) for h, rest in statements(obj)]) for name, obj in methods],
-        "top-level statements of the life-cycle methods (ast.unparse; first line, remaining lines)",
+        "c12S_" + name.replace(".", "_"),
+        "List (String × List String)",
+        [(h, list(rest)) for h, rest in statements(obj)],
+        f"top-level statements of {name} (normalised ast.unparse; first line, remaining lines)",
     )
 
-    # which class every attribute of a fresh Mesh holds (from the statements of __init__, evaluated by the package itself)
-    init = _body(_func(Mesh.__init__))
+
+def _emit_init(emit, Mesh) -> None:
+    emit("c12InitAttrs", "List (String × String)", _init_attrs(Mesh), "attributes created by Mesh.__init__ and the right-hand sides")
+
+
+def _init_attrs(Mesh) -> List[Tuple[str, str]]:
     attrs = []
-    for node in init:
-        targets = []
-        if isinstance(node, ast.Assign):
-            targets = node.targets
-        elif isinstance(node, ast.AnnAssign):
-            targets = [node.target]
+    for node in _body(_func(Mesh.__init__)):
+        targets = node.targets if isinstance(node, ast.Assign) else []
         for t in targets:
             if isinstance(t, ast.Attribute) and isinstance(t.value, ast.Name) and t.value.id == "self":
                 attrs.append((t.attr, ast.unparse(node.value)))
-    emit("c12InitAttrs", "List (String × String)", attrs, "attributes created by Mesh.__init__ and the right-hand sides")
+    return attrs
 
+
+def _emit_clear(emit, Mesh) -> None:
+    attrs = _init_attrs(Mesh)
     probe = Mesh()
     calls, other = [], []
     for node in _body(_func(Mesh.clear)):
@@ -137,16 +202,22 @@ def emit_all(emit) -> None:
     emit("c12ClearCalls", "List (String × List String)", calls, "Mesh.clear: self.<attr>.clear() in order, with the body of that clear()")
     emit("c12ClearOther", "List String", other, "statements of Mesh.clear of any other form")
 
+
+def _emit_write(emit, Mesh) -> None:
     sections: List[str] = []
     pre: List[Tuple[str, List[str]]] = []
     for node in _body(_func(Mesh.write)):
         if isinstance(node, ast.With):
+            # the name the file object is bound to
+            out = node.items[0].optional_vars.id if isinstance(node.items[0].optional_vars, ast.Name) else None
             for inner in node.body:
                 if (
                     isinstance(inner, ast.Expr)
                     and isinstance(inner.value, ast.Call)
                     and isinstance(inner.value.func, ast.Attribute)
                     and inner.value.func.attr == "write"
+                    and isinstance(inner.value.func.value, ast.Name)
+                    and inner.value.func.value.id == out
                     and len(inner.value.args) == 1
                 ):
                     sections.append(ast.unparse(inner.value.args[0]))
@@ -156,4 +227,36 @@ def emit_all(emit) -> None:
             pre.append(_stmt(node))
     emit("c12WriteSections", "List String", sections, "Mesh.write: arguments of the output.write(...) calls in order")
     emit("c12WritePre", "List (String × List String)", [(h, list(r)) for h, r in pre], "Mesh.write: statements before the file is opened")
+
+
+def emit_all(emit) -> None:
+    from classy_blocks.construct.flat.face import Face
+    from classy_blocks.lists.block_list import BlockList
+    from classy_blocks.lists.patch_list import PatchList
+    from classy_blocks.mesh import Mesh
+    from classy_blocks.util import constants
+
+    # plain values first
     emit("c12Tol", "String", repr(constants.TOL), "constants.TOL")
+
+    # every ast group on its own: one that cannot translate the current source does not take the others with it
+    methods: List[Tuple[str, Any]] = [
+        ("Mesh.add", Mesh.add),
+        ("Mesh.delete", Mesh.delete),
+        ("Mesh.assemble", Mesh.assemble),
+        ("Mesh.grade", Mesh.grade),
+        ("Mesh.backport", Mesh.backport),
+        ("Mesh.is_assembled", Mesh.__dict__["is_assembled"]),
+        ("Mesh.add_geometry", Mesh.add_geometry),
+        ("Mesh.modify_patch", Mesh.modify_patch),
+        ("Mesh.set_default_patch", Mesh.set_default_patch),
+        ("Mesh.merge_patches", Mesh.merge_patches),
+        ("BlockList.grade_blocks", BlockList.grade_blocks),
+        ("PatchList.modify", PatchList.modify),
+        ("Face.update", Face.update),
+    ]
+    for name, obj in methods:
+        emit.guard(_emit_method, emit, name, obj)
+    emit.guard(_emit_init, emit, Mesh)
+    emit.guard(_emit_clear, emit, Mesh)
+    emit.guard(_emit_write, emit, Mesh)
